@@ -36,7 +36,7 @@ ASSUMPTIONS = ["fault cases run in a worker interpreter; a dead worker is a viol
                "its journal, never a hang (subprocess timeout)",
                "texts outside the stated domain are filtered by predicate on the text (they are C04's)"]
 FLOORS = {"quick": {"docs_compared": 500, "docs_with_multibyte_neighbour": 300, "ref_candidates": 3000,
-                    "citation_level_compared": 150,
+                    "citation_level_compared": 150, "pattern_members_compared": 6000,
                     "fault_cases": 300, "fault:truncate": 100, "fault:bitflip_header": 100,
                     "fault:byte_body": 30, "fault:garbage": 5, "fault:append": 5, "fault:empty": 1,
                     "fault:version_field": 4, "fault:crash_during_write": 5, "fault:dir_state": 2,
@@ -70,7 +70,7 @@ def prepare(tier, seed, workdir):
 def classify(v):
     if v.get("monitor") == "C14.missing_in_hyperscan":
         o = v.get("observed") or {}
-        if o.get("pattern_has_multibyte_in_class") and "§§" in ((o.get("token") or {}).get("data") or ""):
+        if o.get("pattern_has_multibyte_in_class") and "§" in ((o.get("token") or {}).get("data") or ""):
             return "multibyte-char-in-character-class"
         if o.get("touches_multibyte"):
             return "hyperscan-multibyte-adjacent"
@@ -255,6 +255,44 @@ def run_compare(spec, rec):
             compare_doc(p, rec, ref, hs, by_type)
     for _ in range(spec["ndoc"]):
         compare_doc(doc(rng), rec, ref, hs, by_type)
+    # W1: every extractor pattern of the database (sharded): the candidates the pattern itself finds in
+    # one of its members must be among Hyperscan's candidates (clause (a) restricted to one pattern, which
+    # is cheap enough to be database-exhaustive; pattern conversion errors hide in rare templates)
+    from vmon.rxgen import sample
+    for idx, e in enumerate(EXTRACTORS):
+        if idx % spec["nshards"] != spec["i"]:
+            continue
+        for _t in range(4):
+            try:
+                # wildcards and negated classes of the pattern are filled with ASCII only: a multi-byte
+                # character matched by '.' or [^...] is one *byte* for a byte-oriented engine, i.e. the
+                # engines' classes do not coincide on such a token (outside the domain); the literal
+                # multi-byte characters of the patterns (section and paragraph signs) are produced
+                s = sample(e.regex, rng, e.flags, ascii_only=True)
+            except Exception:
+                break
+            if not gen.ascii_ws_domain(s) or not e.compiled_regex.search(s):
+                continue
+            s = rng.choice(["", "See "]) + s + rng.choice(["", " and so on."])
+            want = {tkey(e.get_token(m)): e.get_token(m) for m in e.get_matches(s)}
+            try:
+                have = {tkey(x) for x in hs.extract_tokens(s)}
+            except Exception as x:
+                rec.violation("C14.hyperscan_raised." + type(x).__name__, dict(text=s), observed=str(x)[:200])
+                break
+            rec.ev()
+            rec.count("pattern_members_compared")
+            for k, t in want.items():
+                if k in have:
+                    continue
+                if any(ord(c) > 127 and c.isalnum() for c in str(t)):
+                    rec.count("candidate_outside_domain_skipped")
+                    continue
+                rec.violation("C14.missing_in_hyperscan", dict(text=s, extractor=idx),
+                              observed=dict(token=M.ser_token(t), touches_multibyte=False,
+                                            pattern_has_multibyte_in_class=multibyte_class_pattern(s, t, by_type),
+                                            context=s[max(0, t.start - 3):t.end + 3]))
+            break
 
 
 # ---------------------------------------------------------------- (d) cache faults
